@@ -530,3 +530,202 @@ Print Assumptions C07_wiring_Strand__row_order_bogus_ids.
 
 End Wiring_C07.
 (* ---- WIRING-APPENDIX:END ---- *)
+
+(*BEGIN GenAgreeDimension_C07*)
+(* ------------------------------------------------------------------------------------ *)
+(* SOURCE TEXT of the dimension side of the anchored order (harness/translate/x_dimension.py -> Gen/DimensionSrc.v,
+   see the appendix of Props/C04.v): _Subtotal.anchor / insertion_id and _Subtotals._iter_valid_subtotal_dicts /
+   _position_crosswalk / _valid_subtotal_dicts_with_ids / _subtotals / bogus_ids / insertion_ids ARE [norm_anchor],
+   [valid_dicts], [crosswalk_order] (as the {position: rank} dict the code builds), [with_ids] of Model/Collator.v -
+   for ALL lists of insertion dicts that read as the model's [insertion] records ([ins_of]: ids are ints, anchors and
+   terms identifiers) and all Elements objects whose ids are identifiers.  [oid] reads an identifier of Base/Ident.v
+   as one of Spec/OrderSpec.v; [jv_of_nanchor] is what _Subtotal.anchor returns; [sub_view] = the (insertion_id,
+   anchor) pair the collators read (Model/PyCollator.v [pysub], [pysubs_of]) - these are the parameters the collator
+   translator takes through [pydim_of].  A view insertion without an id gets the LAST rank of its position in the
+   crosswalk dict; the model reads the first: the two agree when no position is listed twice ([NoDup
+   (crosswalk_order ..)], which holds for distinct element ids).
+   Dimension._view_insertion_dicts / subtotals / subtotals_in_payload_order / insertion_ids / order_spec
+   (Proofs/GenAgreeDimensionCompose.v): for every Dimension object that reads as the model dimension d ([dim_abs]:
+   element definitions with identifier ids and no "order" key, a dimension type other than MR_SUBVAR / DATETIME,
+   insertion dicts that read as [insertion] records) the _Subtotal objects of Dimension.subtotals /
+   subtotals_in_payload_order ARE [subtotals d] / [subtotals_in_payload_order d] - so the two translators compose. *)
+From CC Require Proofs.GenAgreeDimensionAnchors Proofs.GenAgreeDimensionCompose Base.Ident.
+Section GenAgreeDimension_C07.   (* scopes and imports below end with the section *)
+Import Coq.Lists.List Coq.ZArith.ZArith Coq.Strings.String Coq.Bool.Bool CC.Base.XQ CC.Base.PyList CC.Base.PyDict
+       CC.Model.DimType CC.Model.Subtotals CC.Model.SubtotalIds CC.Model.PyDimension CC.Gen.DimensionSrc
+       CC.Proofs.GenAgreeDimensionLib CC.Proofs.GenAgreeDimensionSubtotal CC.Spec.OrderSpec CC.Model.Collator
+       CC.Proofs.OrderCrosswalk CC.Proofs.GenAgreeDimensionAnchors CC.Proofs.GenAgreeDimensionVisibility
+       CC.Proofs.GenAgreeDimensionCompose.
+Import Coq.Lists.List.ListNotations.
+Local Close Scope Q_scope.
+Local Open Scope Z_scope.
+
+Theorem C07_gen_dim__Subtotal_anchor :
+  match src__Subtotal_anchor with
+  | Some f => forall d els ids a, wf_elems els ids ->
+      jd_get d (JStr "anchor") = Some (jv_of_ident a) ->
+      f (mkPySubtotal (JDict d) els) = Ok (jv_of_nanchor (norm_anchor (map oid ids) (oid a)))
+  | None => True end.
+Proof. exact gen__Subtotal_anchor. Qed.
+Print Assumptions C07_gen_dim__Subtotal_anchor.
+
+Theorem C07_gen_dim__Subtotals__iter_valid_subtotal_dicts_C07 :
+  match src__Subtotals__iter_valid_subtotal_dicts with
+  | Some f => forall jsv js els fv ids inss, wf_elems els ids -> pj_iter jsv = Ok js -> Forall2 abs_ins js inss ->
+      exists vs, f (mkPySubtotals jsv els fv) = Ok vs /\
+                 Forall2 abs_ins vs (valid_dicts (map oid ids) inss)
+  | None => True end.
+Proof. exact gen__Subtotals__iter_valid_subtotal_dicts_C07. Qed.
+Print Assumptions C07_gen_dim__Subtotals__iter_valid_subtotal_dicts_C07.
+
+Theorem C07_gen_dim__Subtotals__position_crosswalk :
+  match src__Subtotals__position_crosswalk with
+  | Some f => forall js els fv ids dicts inss, wf_elems els ids -> Forall2 abs_wf_ins dicts inss ->
+      f (mkPySubtotals js els fv) dicts
+      = Ok (py_dict_of_pairs Z.eqb
+              (map (fun p : Z * Z => (snd p, fst p + 1))
+                   (py_enumerate (map Z.of_nat (crosswalk_order (map oid ids) inss)))))
+  | None => True end.
+Proof. exact gen__Subtotals__position_crosswalk. Qed.
+Print Assumptions C07_gen_dim__Subtotals__position_crosswalk.
+
+Theorem C07_gen_dim__Subtotals__valid_subtotal_dicts_with_ids :
+  match src__Subtotals__valid_subtotal_dicts_with_ids with
+  | Some f => forall jsv js els fv ids inss, wf_elems els ids -> pj_iter jsv = Ok js -> Forall2 abs_ins js inss ->
+      (fv = true -> NoDup (crosswalk_order (map oid ids) (valid_dicts (map oid ids) inss))) ->
+      exists rs, f (mkPySubtotals jsv els fv) = Ok rs /\
+                 Forall2 abs_sub rs (with_ids fv (map oid ids) (valid_dicts (map oid ids) inss))
+  | None => True end.
+Proof. exact gen__Subtotals__valid_subtotal_dicts_with_ids. Qed.
+Print Assumptions C07_gen_dim__Subtotals__valid_subtotal_dicts_with_ids.
+
+Theorem C07_gen_dim__Subtotal_insertion_id :
+  match src__Subtotal_insertion_id with
+  | Some f => forall d els z, jd_get d (JStr "id") = Some (JInt z) ->
+      f (mkPySubtotal (JDict d) els) = Ok (JInt z)
+  | None => True end.
+Proof. exact gen__Subtotal_insertion_id. Qed.
+Print Assumptions C07_gen_dim__Subtotal_insertion_id.
+
+Theorem C07_gen_dim__Subtotals__subtotals :
+  match src__Subtotals__subtotals, src__Subtotal_insertion_id, src__Subtotal_anchor with
+  | Some f, Some fid, Some fanchor => forall jsv js els fv ids inss, wf_elems els ids -> pj_iter jsv = Ok js -> Forall2 abs_ins js inss ->
+      (fv = true -> NoDup (crosswalk_order (map oid ids) (valid_dicts (map oid ids) inss))) ->
+      exists subs, f (mkPySubtotals jsv els fv) = Ok subs /\
+                   Forall2 (sub_view fid fanchor (map oid ids)) subs
+                           (with_ids fv (map oid ids) (valid_dicts (map oid ids) inss))
+  | _, _, _ => True end.
+Proof. exact gen__Subtotals__subtotals. Qed.
+Print Assumptions C07_gen_dim__Subtotals__subtotals.
+
+Theorem C07_gen_dim__Subtotals__subtotals_ids :
+  match src__Subtotals__subtotals, src__Subtotal_insertion_id with
+  | Some f, Some fid => forall jsv js els fv ids inss, wf_elems els ids -> pj_iter jsv = Ok js -> Forall2 abs_ins js inss ->
+      (fv = true -> NoDup (crosswalk_order (map oid ids) (valid_dicts (map oid ids) inss))) ->
+      exists subs, f (mkPySubtotals jsv els fv) = Ok subs /\
+                   Forall2 (fun s zi => fid s = Ok (JInt (fst zi))) subs
+                           (with_ids fv (map oid ids) (valid_dicts (map oid ids) inss))
+  | _, _ => True end.
+Proof. exact gen__Subtotals__subtotals_ids. Qed.
+Print Assumptions C07_gen_dim__Subtotals__subtotals_ids.
+
+Theorem C07_gen_dim__Subtotals_insertion_ids :
+  match src__Subtotals_insertion_ids with
+  | Some f => forall jsv js els fv ids inss, wf_elems els ids -> pj_iter jsv = Ok js -> Forall2 abs_ins js inss ->
+      (fv = true -> NoDup (crosswalk_order (map oid ids) (valid_dicts (map oid ids) inss))) ->
+      f (mkPySubtotals jsv els fv)
+      = Ok (map (fun zi => JInt (fst zi)) (with_ids fv (map oid ids) (valid_dicts (map oid ids) inss)))
+  | None => True end.
+Proof. exact gen__Subtotals_insertion_ids. Qed.
+Print Assumptions C07_gen_dim__Subtotals_insertion_ids.
+
+Theorem C07_gen_dim__Subtotals_bogus_ids :
+  match src__Subtotals_bogus_ids with
+  | Some f => forall jsv js els fv ids inss, wf_elems els ids -> pj_iter jsv = Ok js -> Forall2 abs_ins js inss ->
+      (fv = true -> NoDup (crosswalk_order (map oid ids) (valid_dicts (map oid ids) inss))) ->
+      f (mkPySubtotals jsv els fv)
+      = Ok (map (fun zi => JInt (fst zi)) (with_ids fv (map oid ids) (valid_dicts (map oid ids) inss)))
+  | None => True end.
+Proof. exact gen__Subtotals_bogus_ids. Qed.
+Print Assumptions C07_gen_dim__Subtotals_bogus_ids.
+
+Theorem C07_gen_dim_Dimension__view_insertion_dicts :
+  match src_Dimension__view_insertion_dicts with
+  | Some f => forall t dd tr v, view_of dd = Some v -> f (mkPyDimension t (JDict dd) tr) = Ok v
+  | None => True end.
+Proof. exact gen_Dimension__view_insertion_dicts. Qed.
+Print Assumptions C07_gen_dim_Dimension__view_insertion_dicts.
+
+Theorem C07_gen_dim_Dimension_subtotals :
+  match src_Dimension_subtotals, src__Subtotals__subtotals, src__Subtotal_insertion_id, src__Subtotal_anchor with
+  | Some f, Some fs, Some fid, Some fanchor => forall t dd tr ty defs ids ax vjs d,
+      dim_abs t dd tr ty defs ids ax vjs d ->
+      exists S subs, f (mkPyDimension t (JDict dd) (JDict tr)) = Ok S /\ fs S = Ok subs /\
+                     Forall2 (sub_view fid fanchor (d_ids d)) subs (subtotals d)
+  | _, _, _, _ => True end.
+Proof. exact gen_Dimension_subtotals. Qed.
+Print Assumptions C07_gen_dim_Dimension_subtotals.
+
+Theorem C07_gen_dim_Dimension_subtotals_ids :
+  match src_Dimension_subtotals, src__Subtotals__subtotals, src__Subtotal_insertion_id with
+  | Some f, Some fs, Some fid => forall t dd tr ty defs ids ax vjs d,
+      dim_abs t dd tr ty defs ids ax vjs d ->
+      exists S subs, f (mkPyDimension t (JDict dd) (JDict tr)) = Ok S /\ fs S = Ok subs /\
+                     Forall2 (fun s zi => fid s = Ok (JInt (fst zi))) subs (subtotals d)
+  | _, _, _ => True end.
+Proof. exact gen_Dimension_subtotals_ids. Qed.
+Print Assumptions C07_gen_dim_Dimension_subtotals_ids.
+
+Theorem C07_gen_dim_Dimension_subtotals_in_payload_order :
+  match src_Dimension_subtotals_in_payload_order, src__Subtotals__subtotals, src__Subtotal_insertion_id,
+        src__Subtotal_anchor with
+  | Some f, Some fs, Some fid, Some fanchor => forall t dd tr ty defs ids ax vjs d,
+      dim_abs t dd tr ty defs ids ax vjs d ->
+      exists S subs, f (mkPyDimension t (JDict dd) (JDict tr)) = Ok S /\ fs S = Ok subs /\
+                     Forall2 (sub_view fid fanchor (d_ids d)) subs (subtotals_in_payload_order d)
+  | _, _, _, _ => True end.
+Proof. exact gen_Dimension_subtotals_in_payload_order. Qed.
+Print Assumptions C07_gen_dim_Dimension_subtotals_in_payload_order.
+
+Theorem C07_gen_dim_Dimension_insertion_ids :
+  match src_Dimension_insertion_ids with
+  | Some f => forall t dd tr ty defs ids ax vjs d, dim_abs t dd tr ty defs ids ax vjs d ->
+      f (mkPyDimension t (JDict dd) (JDict tr)) = Ok (map (fun zi => JInt (fst zi)) (subtotals d))
+  | None => True end.
+Proof. exact gen_Dimension_insertion_ids. Qed.
+Print Assumptions C07_gen_dim_Dimension_insertion_ids.
+
+Theorem C07_gen_dim_Dimension_order_spec :
+  match src_Dimension_order_spec with
+  | Some f => forall D, f D = Ok (mkPyOrderSpec D (dm_dimension_transforms_dict D))
+  | None => True end.
+Proof. exact gen_Dimension_order_spec. Qed.
+Print Assumptions C07_gen_dim_Dimension_order_spec.
+
+Theorem C07_gen_dim_Element_derived :
+  match src_Element_derived with
+  | Some f => forall e idx xf t, f (mkPyElement (JDict e) idx xf t) = Ok (derived_of e)
+  | None => True end.
+Proof. exact gen_Element_derived. Qed.
+Print Assumptions C07_gen_dim_Element_derived.
+
+Theorem C07_gen_dim_Element_anchor :
+  match src_Element_anchor with
+  | Some f => forall e idx xf t v r,
+      jv_truthy (derived_of e) = true ->
+      jd_get_default e (JStr "value") (JDict []) = JDict v ->
+      jd_get_default v (JStr "references") (JDict []) = JDict r ->
+      f (mkPyElement (JDict e) idx xf t) = Ok (jd_get_default r (JStr "anchor") JNone)
+  | None => True end.
+Proof. exact gen_Element_anchor. Qed.
+Print Assumptions C07_gen_dim_Element_anchor.
+
+Theorem C07_gen_dim_Element_anchor_not_derived :
+  match src_Element_anchor with
+  | Some f => forall e idx xf t, jv_truthy (derived_of e) = false -> f (mkPyElement (JDict e) idx xf t) = Ok JNone
+  | None => True end.
+Proof. exact gen_Element_anchor_not_derived. Qed.
+Print Assumptions C07_gen_dim_Element_anchor_not_derived.
+
+End GenAgreeDimension_C07.
+(*END GenAgreeDimension_C07*)
